@@ -214,6 +214,9 @@ pub fn enum_def(e: &EnumSpec, o: &EnumOpts) -> String {
         if !v.docs_last {
             s.push_str(&docs);
         }
+        for n in &v.noise {
+            let _ = writeln!(s, "    {}", n);
+        }
         for grp in &v.groups {
             let items: Vec<String> = grp.iter().map(|a| vattr(a, &dw_fn_name(vi, 0))).collect();
             let _ = writeln!(s, "    #[strum({})]", items.join(", "));
@@ -690,17 +693,20 @@ pub fn module_repr(e: &EnumSpec, o: &ModOpts) -> ModuleSrc {
     // the parameter type of from_repr is part of the statement: the repr integer type, usize if none
     src.tagged(&format!("    fn from_repr(d: i128) -> Option<Option<Self>> {{ let x: {} = ::core::convert::TryFrom::try_from(d).ok()?; Some(Self::from_repr(x)) }}", r), "C06:discriminant-type");
     let fieldless = e.variants.iter().all(|v| v.kind == Kind::Unit);
-    if fieldless && !e.has_generics() && !e.variants.is_empty() {
+    // a field-less enum may still carry an (unused) const parameter
+    let plain_generics = !e.type_param && !e.lifetime;
+    let path = if e.const_param { format!("{}::<3>", name) } else { name.clone() };
+    if fieldless && plain_generics && !e.variants.is_empty() {
         src.push("    fn as_repr(&self) -> Option<i128> { Some(match self {");
         for v in &e.variants {
-            src.push(&format!("        {n}::{v} => ({n}::{v} as {r}) as i128,", n = name, v = v.ident, r = r));
+            src.push(&format!("        {n}::{v} => ({p}::{v} as {r}) as i128,", n = name, p = path, v = v.ident, r = r));
         }
         src.push("    }) }");
     } else if e.repr_int.is_some() && !e.variants.is_empty() {
         // documented way to read the discriminant of a primitive-repr enum with fields
         src.push(&format!("    fn as_repr(&self) -> Option<i128> {{ Some(unsafe {{ *(self as *const Self as *const {}) }} as i128) }}", r));
     }
-    if fieldless && !e.has_generics() {
+    if fieldless && plain_generics {
         src.push("    fn const_results() -> Vec<(i128, Option<usize>)> { let mut v = Vec::new();");
         let ds = crate::model::discs(e);
         let mut pts: Vec<i128> = ds.clone();
@@ -713,7 +719,7 @@ pub fn module_repr(e: &EnumSpec, o: &ModOpts) -> ModuleSrc {
                 continue;
             }
             src.tagged(
-                &format!("        {{ const C: Option<{n}> = {n}::from_repr({d}); v.push(({d}i128, C.map(|x| vrt::Glue::idx(&x)))); }}", n = name, d = d),
+                &format!("        {{ const C: Option<{t}> = {p}::from_repr({d}); v.push(({d}i128, C.map(|x| vrt::Glue::idx(&x)))); }}", t = ty, p = path, d = d),
                 "C06:const-from_repr",
             );
         }
@@ -849,7 +855,13 @@ pub fn module_disc(e: &EnumSpec, o: &ModOpts) -> ModuleSrc {
     src.push(&enum_def(e, &eo));
     if !private {
         src.push("}");
-        src.push(&format!("pub use self::def::{};", name));
+        // re-export with the enum's own visibility (a `pub use` of a restricted item is an error)
+        let use_vis = match e.vis.as_str() {
+            "pub" => "pub ",
+            "pub(crate)" => "pub(crate) ",
+            _ => "",
+        };
+        src.push(&format!("{}use self::def::{};", use_vis, name));
         src.tagged(&format!("use self::def::{} as D;", dname), "C09:name-and-visibility");
     } else {
         src.tagged(&format!("use self::{} as D;", dname), "C09:name-and-visibility");
